@@ -336,11 +336,40 @@ func getFixture() (*fixture, error) {
 				fixErr = err
 				return
 			}
-			fix, fixErr = &fixture{addr: listen, pub: pub, srv: srv}, nil
+			cand := &fixture{addr: listen, pub: pub, srv: srv}
+			// make sure it is this process's listener that answers on the port (another
+			// shard may have taken it between the probe and the bind)
+			if err := trialSession(cand); err != nil {
+				fixErr = fmt.Errorf("listener on %s does not complete a session handshake with this process's server key: %v", listen, err)
+				srv.Stop()
+				continue
+			}
+			fix, fixErr = cand, nil
 			return
 		}
 	})
 	return fix, fixErr
+}
+
+func trialSession(f *fixture) error {
+	a, err := dialAgent(f)
+	if err != nil {
+		return err
+	}
+	defer a.c.Close()
+	a.c.SetDeadline(time.Now().Add(10 * time.Second))
+	a.write(encodeFrame(frame{Type: tHandshake, Version: 1, Strs: []string{"trial", "", "", "trial"}}))
+	if a.werr != nil {
+		return a.werr
+	}
+	resp, err := readFrame(saneReader{a.c})
+	if err != nil {
+		return err
+	}
+	if resp.Type != tHSResp {
+		return fmt.Errorf("frame type %d instead of a handshake response", resp.Type)
+	}
+	return nil
 }
 
 // ---------------------------------------------------------------- scripted agent
